@@ -111,12 +111,12 @@ func c16StartCons(s *srv.Server, kind, name string, inc int) (*c16Cons, error) {
 	case "rtmp":
 		x.rtmp, err = ref.StartRtmpSubscriber(s.RtmpAddr(), "live", name, 5*time.Second)
 		if err == nil {
-			local = x.rtmp.RC.Conn.LocalAddr().String()
+			local = srv.Key(x.rtmp.RC.Conn)
 		}
 	default:
 		x.http, err = srv.StartHttpSub(s.HttpAddr(), "/live/"+name+"."+kind, kind, 5*time.Second)
 		if err == nil {
-			local = x.http.Conn.LocalAddr().String()
+			local = srv.Key(x.http.Conn)
 		}
 	}
 	if err != nil {
@@ -284,7 +284,7 @@ func c16Finalise(c *fw.Ctx, i int) {
 			c.Inconclusive("publisher: %v | %s", err, desc)
 			return
 		}
-		paddr := pub.RC.Conn.LocalAddr().String()
+		paddr := srv.Key(pub.RC.Conn)
 		ev, ok := s.Notify.WaitSessionFrom(5*time.Second, from, "pub_start", paddr)
 		if !ok {
 			pub.Close()
@@ -786,7 +786,7 @@ func c16Republish(c *fw.Ctx, i int) {
 			c.Inconclusive("publisher: %v", err)
 			return
 		}
-		paddr := pub.RC.Conn.LocalAddr().String()
+		paddr := srv.Key(pub.RC.Conn)
 		if _, ok := s.Notify.WaitSessionFrom(3*time.Second, from, "pub_start", paddr); !ok {
 			pub.Close()
 			c.Inconclusive("publisher not accepted")
@@ -897,7 +897,7 @@ func c16LatePush(c *fw.Ctx, i int) {
 			c.Inconclusive("publisher: %v", err)
 			return
 		}
-		paddr := pr.RC.Conn.LocalAddr().String()
+		paddr := srv.Key(pr.RC.Conn)
 		ev, ok := s.Notify.WaitSessionFrom(5*time.Second, from, "pub_start", paddr)
 		if !ok {
 			pr.Close()
@@ -1266,7 +1266,7 @@ func c16Resources(c *fw.Ctx, i int) {
 			c.Inconclusive("publisher: %v", err)
 			return
 		}
-		paddr := pub.RC.Conn.LocalAddr().String()
+		paddr := srv.Key(pub.RC.Conn)
 		ev, ok := s.Notify.WaitSessionFrom(5*time.Second, from, "pub_start", paddr)
 		if !ok {
 			pub.Close()
